@@ -48,7 +48,7 @@ func (fr *frame) strOp(f func(a, b value) value, x, y value) (res value) {
 	x, y = fr.flattenDeep(x), fr.flattenDeep(y)
 	r, nf = try()
 	if nf {
-		panic(pathAbort{"unsupported", "string operation on digests"})
+		panic(pathAbort{"unsupported", "string operation on symbolic digests" + dbgStack()})
 	}
 	return r
 }
@@ -56,7 +56,7 @@ func (fr *frame) strOp(f func(a, b value) value, x, y value) (res value) {
 func (fr *frame) flattenDeep(v value) value {
 	switch v := v.(type) {
 	case SymString:
-		return fr.i.ex.flatten(v)
+		return fr.i.ex.flattenEq(v)
 	case iface:
 		if v.t == nil {
 			return v
